@@ -5,6 +5,7 @@ import (
 	_ "verifharness/props/c02"
 	_ "verifharness/props/c03"
 	_ "verifharness/props/c04"
+	_ "verifharness/props/c05"
 	_ "verifharness/props/c08"
 	_ "verifharness/props/c09"
 	_ "verifharness/props/c11"
